@@ -100,7 +100,12 @@ func main() {
 	oneshotItem := flag.Int("oneshot-item", -1, "C19: execute this corpus item as the first library call of the process and print its outcome")
 	emitC := flag.Bool("emit-corpus", false, "C19: print the corpus")
 	expectFile := flag.String("expect", "", "C19: JSON array of fresh-process outcomes, one per corpus item")
+	gstats := flag.Int("genstats", 0, "debug: measure the hit rate of the path generator")
 	flag.Parse()
+	if *gstats > 0 {
+		genStats(*gstats)
+		return
+	}
 	tier = *tierF
 	out := bufio.NewWriterSize(os.Stdout, 1<<16)
 	defer out.Flush()
